@@ -522,7 +522,7 @@ class Sim:
             reqs = [m for i, m in self.app_requests if i == int(t[1])]
             try:
                 req = reqs[idx]
-                ans = a.generate_answer(req, result_code=int(t[3]))
+                ans = a.generate_answer(req, result_code=None if t[3] == "-" else int(t[3]))
                 a.send_answer(ans)
                 self.obs.append(f"APP a{t[1]} SENT")
             except Exception as e:  # noqa
